@@ -252,7 +252,7 @@ def c01_r2(ctx):
 
 
 # ---------------------------------------------------------------------- C01.R3
-@rule("C01.R3", "field alias equals the response key; python name derives from it", min_instances=5, also=["C18"])
+@rule("C01.R3", "field alias equals the response key; python name derives from it", min_instances=6, also=["C18"])
 def c01_r3(ctx):
     repo = ctx.repo
     fi = repo.func(RT + "_get_field_name")
@@ -284,6 +284,26 @@ def c01_r3(ctx):
         v = env.get(v.id, v) if isinstance(v, ast.Name) else v
         good = norm(v) == f"self._get_field_name({fvar})"
     ctx.check(good, key(td, "alias source"), "the alias handed to _process_field_implementation is not the field's response key", td.loc(), okmsg="alias source = response key")
+    # nested classes are named after the RESPONSE KEY of the field (two aliases of one field select different sub-fields and
+    # need two classes), i.e. after the same python name that becomes the attribute
+    pof = calls_named(body, "parse_operation_field")
+    good = len(pof) == 1 and kw(pof[0], "class_name") is not None
+    if good:
+        cn = kw(pof[0], "class_name")
+        seen_n = set()
+
+        def expand(e, depth=0):
+            out_ = []
+            for n in ast.walk(e):
+                if isinstance(n, ast.Name) and n.id in env and n.id not in seen_n and depth < 6 and n.id != "class_name":
+                    seen_n.add(n.id)
+                    out_ += expand(env[n.id], depth + 1)
+            return [norm(e)] + out_
+        chain_ = expand(cn)
+        good = "str_to_pascal_case" in norm(cn) and any(f"self._get_field_name({fvar})" in t or f"self._get_field_name(field={fvar})" in t for t in chain_) \
+            and not any(isinstance(n, ast.Attribute) and norm(n) == f"{fvar}.name.value" for n in ast.walk(cn))
+    ctx.check(good, key(td, "nested class name"), "the class generated for a field's sub-selection is not named after the field's response key (alias or name) as processed for the attribute: "
+              "`a: friend { id }` and `b: friend { name }` would share one class name and one of the two selections is lost", td.loc(), okmsg="nested class name derives from the response key")
     gfs = calls_named(body, "self._get_field_from_schema")
     good = len(gfs) == 1 and len(allargs(gfs[0])) == 2 and norm(allargs(gfs[0])[0]) == "type_name" and norm(allargs(gfs[0])[1]) == f"{fvar}.name.value"
     ctx.check(good, key(td, "schema lookup"), "the schema field is not looked up by the field's own name (aliases must not be used for lookup)", td.loc(), okmsg="schema lookup by field.name.value")
@@ -1130,3 +1150,32 @@ def c01_r12(ctx):
     outs = [o for o in Interp(fi, mk(False, False), is_effect=eff).run() if o.kind == "return"]
     good = bool(outs) and all(isinstance(strip_pre(o.value), ast.Call) and dotted(strip_pre(o.value).func) == "generate_annotation_name" for o in outs)
     ctx.check(good, key(fi, "no fragments"), f"without fragments the field must be typed by the single class: {[o.text()[:100] for o in outs]}", fi.loc(), okmsg="no fragments -> single class")
+
+
+# ---------------------------------------------------------------------- C08.R5
+@rule("C08.R5", "the @mixin directive is declared repeatable, on fields and fragment definitions, with the two string arguments the generator reads", min_instances=4,
+      also=["C02", "C04", "C17"])
+def c08_r5(ctx):
+    repo = ctx.repo
+    fi = repo.func("schema:add_mixin_directive_to_schema")
+    ds = [c for c in walk_no_nested(fi.node) if isinstance(c, ast.Call) and is_name(c.func, "GraphQLDirective")]
+    if len(ds) != 1:
+        raise AnalysisError(f"add_mixin_directive_to_schema: {len(ds)} GraphQLDirective constructions")
+    d = ds[0]
+    ctx.check(norm(kw(d, "name") or ast.Constant(0)) in ("MIXIN_NAME", "'mixin'"), key(fi, "name"), f"the directive is named {norm(kw(d, 'name') or ast.Constant(0))}", fi.loc(d), okmsg="directive name = mixin")
+    rep = kw(d, "is_repeatable")
+    ctx.check(is_const(rep, True), key(fi, "repeatable"), "the @mixin directive is not declared repeatable: an operation that puts two @mixin directives on one field or fragment definition "
+              "(documented, and used by the project's own example queries) is rejected as invalid for the schema", fi.loc(d), okmsg="is_repeatable=True")
+    lv = kw(d, "locations")
+    locs = sorted(e.attr for e in getattr(lv, "elts", []) if isinstance(e, ast.Attribute))
+    ctx.check(locs == ["FIELD", "FRAGMENT_DEFINITION"], key(fi, "locations"), f"@mixin is declared for {locs}; the generator reads it on fields and on fragment definitions "
+              "(a missing location makes documented operations invalid, an extra one is never removed before sending)", fi.loc(d), okmsg="locations = FIELD, FRAGMENT_DEFINITION")
+    av = kw(d, "args")
+    keys = sorted(norm(k) for k in getattr(av, "keys", []) if k is not None)
+    types_ok = isinstance(av, ast.Dict) and all(isinstance(v, ast.Call) and is_name(v.func, "GraphQLArgument") and norm(argv(v, 0, "type_") or ast.Constant(0)) == "GraphQLString" for v in av.values)
+    ctx.check(keys in (["'from'", "'import'"], ["MIXIN_FROM_NAME", "MIXIN_IMPORT_NAME"]) and types_ok, key(fi, "arguments"),
+              f"@mixin arguments are {keys} (String: {types_ok}); _parse_mixin_arguments reads `from` and `import` string values", fi.loc(d), okmsg="arguments: from / import, both String")
+    # declared once: an existing declaration is kept
+    outs = Interp(fi, lambda e: True if " in " in norm(strip_pre(e)) and "MIXIN_NAME" in norm(strip_pre(e)) or "'mixin' in" in norm(strip_pre(e)) else None).run()
+    ctx.check(bool(outs) and all(o.kind == "return" and is_name(strip_pre(o.value), fi.node.args.args[0].arg) and not o.effects for o in outs), key(fi, "idempotent"),
+              "a schema that already declares @mixin is not returned unchanged", fi.loc(), okmsg="already declared -> schema returned unchanged")
